@@ -4,4 +4,5 @@ NEXT Next
 INVARIANT TypeOk
 INVARIANT AcceptedIsTotal
 INVARIANT VerdictRegionLemma
+INVARIANT BuildAlgorithmCorrect
 CHECK_DEADLOCK FALSE
